@@ -652,6 +652,7 @@ static void modeC15(long ncases) {
     c.cfg.enhanced = r.chance(1, 2);
     c.cfg.answer = true;
     c.synGlue = r.chance(1, 3) ? r.pick(std::vector<int>{30, 100}) : 0;     // SYN and the start of the telegram in one read
+    if (c.synGlue == 0 && r.chance(1, 3)) c.chunks = r.pick(std::vector<std::vector<size_t>>{{1}, {2, 1, 3}, {3}, {1, 1, 5, 2}, {2}});
     c.cfg.lockCount = r.pick(std::vector<unsigned>{0, 3});
     uint8_t ownSlave = (uint8_t)(c.cfg.own + 5);
     // registered answers
